@@ -1,4 +1,6 @@
 mod c01;
+mod c07;
+mod enum_fol;
 mod dom;
 mod enum_asp;
 mod ground;
@@ -47,6 +49,8 @@ fn main() {
         let code = match id.as_str() {
             "C01" => c01::replay(c01::Mode::C01, &v),
             "C08" => c01::replay(c01::Mode::C08, &v),
+            "C07" => c07::replay(c07::Mode::C07, &v),
+            "C18" => c07::replay(c07::Mode::C18, &v),
             _ => {
                 eprintln!("no replay for {id}");
                 2
@@ -58,6 +62,8 @@ fn main() {
     match id.as_str() {
         "C01" => c01::run(c01::Mode::C01, &run),
         "C08" => c01::run(c01::Mode::C08, &run),
+        "C07" => c07::run(c07::Mode::C07, &run),
+        "C18" => c07::run(c07::Mode::C18, &run),
         _ => {
             eprintln!("unknown property {id}");
             std::process::exit(2)
